@@ -214,12 +214,12 @@ func runOverflow(out *res.Result) error {
 		switch {
 		case timeout || strings.Contains(txt, "stack overflow") || strings.Contains(txt, "stack exceeds"):
 			out.Hit("impl:stack-exhaustion")
-			out.Add(res.Finding{Kind: "crash", Op: "crash:counters:RenderValue", Input: in, Impl: "fatal error: stack overflow (process dies)",
+			add(out, res.Finding{Kind: "crash", Op: "crash:counters", Input: in, Impl: "fatal error: stack overflow (process dies)",
 				Model: "diverge", Reason: "unbounded recursion renderValue -> RenderValue(decimal): a value outside [MinInt32, MaxInt32] is outside every auto range, decimal included", Key: "stack overflow"})
 		case cerr != nil:
 			return fmt.Errorf("overflow probe: %v: %s", cerr, txt)
 		case !strings.Contains(txt, want):
-			out.Add(res.Finding{Kind: "judge", Op: "judge:counter-style:RenderValue", Input: in, Impl: txt, Model: want, Key: "other"})
+			add(out, res.Finding{Kind: "judge", Op: "judge:counter-style", Input: in, Impl: txt, Model: want, Key: "other"})
 		}
 	}
 	return nil
